@@ -63,10 +63,29 @@ def correspond(ctx, scale=1, variants=None, use_oracle=False):
     for k in range(150 * scale):
         b = "cpp" if k % 2 == 0 else "c"
         hists.append((b, forward_history(rng, b)))
+    # 2b. a sieve array above 4 MiB (sieve size 8192 KiB, chunk = 2*sqrt(n) numbers at n >= 1e16): the only
+    #     configuration in which the sieving primes' multipleIndex field uses its top bit
+    for b in ("cpp", "c")[:2 if ctx.thorough else 1]:
+        s0 = 10 ** 16 + rng.below(10 ** 12)
+        hists.append((b, ["SS 8192", "NEW %d %d" % (s0, iterlib.MAX64)] + ["N"] * 150))
     nmodel = len(hists)
     # 3. blocks filled by generate_next_primes (checked against the specification with the independent oracle)
     for k in range(60 * scale):
         hists.append(("cpp" if k % 2 == 0 else "c", block_history(rng)))
+    # 3b. p^2 on the last bit of a middle segment of one chunk: 16 KiB segments (491520 numbers), the chunk extended
+    #     by the stop hint over k+1 segments; p only becomes a sieving prime if segmentHigh covers that last bit
+    import math
+    for k in range(4 * scale):
+        while True:
+            p = oracle.next_prime_ge(rng.choice([1000, 3000, 10 ** 4, 10 ** 5, 3 * 10 ** 5]) + rng.below(2000))
+            if p % 30 in (1, 11, 19, 29):
+                break
+        nseg = rng.between(2, 3)
+        low = p * p - 1 - nseg * 491520
+        if low < 0:
+            continue
+        nblk = int(1.25 * (nseg * 491520 + 2000) / (math.log(p * p) - 1) / 1024) + 3
+        hists.append(("cpp" if k % 2 == 0 else "c", ["SS 16", "NEW %d %d" % (low + 7, p * p + rng.between(100, 3000))] + ["GN"] * nblk))
     mismatches, samples, sigs = [], [], set()
     dist = {"magnitude": {}, "sieve_sizes": {}, "blocks": 0, "block_primes": 0, "errors": 0, "buffer_edge_refills": 0}
     evaluations = 0
